@@ -69,6 +69,8 @@ func registerArchiveModels(e *Engine) {
 			isReg := Or(Eq(typeflag, IntT('0')), Eq(typeflag, IntT(0)))
 			bodySize := Ite(isReg, size, IntT(0))
 			e.ghostSet(s.st, "tarRemaining", IntS, l, bodySize)
+			e.ghostSet(s.st, "lastBody", StringS, l, StrT(""))
+			e.ghostSet(s.st, "lastName", StringS, l, hv("Name"))
 			e.ghostSet(s.st, "tarPad", IntS, l, ModE(Sub(IntT(512), ModE(bodySize, IntT(512))), IntT(512)))
 			e.ghostSet(s.st, "entries", IntS, l, uf("tcons", IntS, e.ghostGet(s.st, "entries", IntS, l), entry))
 			e.ghostSet(s.st, "tarBytes", IntS, l, Add(e.ghostGet(s.st, "tarBytes", IntS, l), Add(pad, hdrLen)))
@@ -90,6 +92,7 @@ func registerArchiveModels(e *Engine) {
 			data := StrSubstr(p, IntT(0), n)
 			werr = e.pushDown(s, l, data)
 			e.ghostSet(s.st, "tarRemaining", IntS, l, Sub(rem, n))
+			e.ghostSet(s.st, "lastBody", StringS, l, Concat(e.ghostGet(s.st, "lastBody", StringS, l), data))
 			e.ghostSet(s.st, "entries", IntS, l, uf("tbody", IntS, e.ghostGet(s.st, "entries", IntS, l), data))
 			e.ghostSet(s.st, "tarBytes", IntS, l, Add(e.ghostGet(s.st, "tarBytes", IntS, l), n))
 		})
